@@ -180,8 +180,119 @@ def reconfirm(sids):
         shutil.rmtree(clean, ignore_errors=True)
 
 
+NEUTRAL = os.path.join(VERIF, 'seeded_neutral')
+
+
+def _hash_line(script, root):
+    env = dict(os.environ, PYTHONPATH=root, PYTHONDONTWRITEBYTECODE='1')
+    r = subprocess.run([PY, '-W', 'ignore', script], cwd=root, env=env, capture_output=True, text=True, timeout=1200)
+    lines = [l for l in r.stdout.splitlines() if l.startswith('HASH')]
+    return r.returncode, (lines[-1] if lines else ''), (r.stdout + r.stderr)[-300:]
+
+
+def harvest_neutral(root='/tmp/seed5', tag='r5-'):
+    """behaviour-preserving refactorings written by independent sub-agents: kept when the patch applies, the baseline is intact and the
+    sub-agent's differential script prints the same HASH line on the clean and on the refactored tree"""
+    os.makedirs(NEUTRAL, exist_ok=True)
+    clean, _ = scratch()
+    kept = 0
+    try:
+        for patch in sorted(glob.glob(root + '/C*/out/patch*.diff')):
+            out = os.path.dirname(patch)
+            pid = os.path.basename(os.path.dirname(out))
+            n = os.path.basename(patch)[5:-5]
+            equiv = os.path.join(out, 'equiv%s.py' % n)
+            meta = os.path.join(out, 'meta%s.json' % n)
+            sid = '%s-%s%s' % (pid, tag, n)
+            if not (os.path.exists(equiv) and os.path.exists(meta)):
+                print(sid, 'SKIP incomplete')
+                continue
+            d, err = scratch(patch)
+            if d is None:
+                print(sid, 'SKIP patch does not apply:', err[:200])
+                continue
+            try:
+                files = subprocess.run(['git', 'apply', '--numstat', patch], capture_output=True, text=True).stdout
+                if 'tests/' in files:
+                    print(sid, 'SKIP touches tests')
+                    continue
+                b = subprocess.run([os.path.join(VERIF, 'tools', 'baseline.py'), d], capture_output=True, text=True)
+                base_line = b.stdout.splitlines()[0] if b.stdout else ''
+                rc1, h_with, o1 = _hash_line(equiv, d)
+                rc0, h_without, o0 = _hash_line(equiv, clean)
+                ok = b.returncode == 0 and rc1 == 0 and rc0 == 0 and h_with and h_with == h_without
+                print(sid, 'KEEP' if ok else 'REJECT', '| baseline:', base_line, '|', h_with[:24], '|', h_without[:24])
+                if not ok:
+                    print('   ', o1.replace('\n', ' | '))
+                    continue
+                dst = os.path.join(NEUTRAL, sid)
+                os.makedirs(dst, exist_ok=True)
+                shutil.copy(patch, os.path.join(dst, 'patch.diff'))
+                shutil.copy(equiv, os.path.join(dst, 'equiv.py'))
+                try:
+                    m = json.load(open(meta))
+                except Exception:
+                    m = {}
+                m['property'] = pid
+                m['id'] = sid
+                m['author'] = 'independent sub-agent given only the property text and a scratch worktree; asked for behaviour-preserving refactorings'
+                m['confirmed'] = {'applies_to_repo_head': subprocess.run(['git', '-C', '/repo', 'rev-parse', '--short', 'HEAD'], capture_output=True, text=True).stdout.strip(),
+                                  'baseline_with_patch': base_line, 'hash_with_patch': h_with, 'hash_without_patch': h_without,
+                                  'how': 'tools/seeds.py harvest-neutral: scratch copy of /repo + git apply; tools/baseline.py; equiv.py run on both trees'}
+                json.dump(m, open(os.path.join(dst, 'meta.json'), 'w'), indent=1)
+                kept += 1
+            finally:
+                shutil.rmtree(d, ignore_errors=True)
+    finally:
+        shutil.rmtree(clean, ignore_errors=True)
+    print('kept', kept)
+
+
+def run_neutral(only=None):
+    """every claimed check on every refactored tree: anything but exit 0 is a false alarm (1) or a rigidity (2) of the checker"""
+    sys.path.insert(0, VERIF)
+    from sa.main import CLAIMED
+    from concurrent.futures import ThreadPoolExecutor
+    rows = []
+
+    def one(dst):
+        sid = os.path.basename(dst)
+        d, err = scratch(os.path.join(dst, 'patch.diff'))
+        if d is None:
+            return (sid, 'STALE', '')
+        try:
+            alarms, und = [], []
+            for p in CLAIMED:
+                r = subprocess.run([os.path.join(VERIF, 'check'), p, '--repo', d], capture_output=True, text=True, cwd=VERIF)
+                if r.returncode == 1:
+                    rules = sorted(set(l.split()[1] for l in r.stdout.splitlines() if l.startswith('  rule ')))
+                    alarms.append('%s[%s]' % (p, ','.join(rules)))
+                elif r.returncode != 0:
+                    msg = [l for l in r.stdout.splitlines() if l.startswith('ANALYSIS-ERROR')]
+                    und.append('%s(%s)' % (p, msg[0][15:75] if msg else 'exit %d' % r.returncode))
+            return (sid, 'FALSE-ALARM' if alarms else ('UNDECIDED' if und else 'SILENT'), ' '.join(alarms + und))
+        finally:
+            shutil.rmtree(d, ignore_errors=True)
+    dsts = sorted(d for d in glob.glob(os.path.join(NEUTRAL, '*')) if os.path.isdir(d) and (not only or only in os.path.basename(d)))
+    with ThreadPoolExecutor(max_workers=12) as ex:
+        rows = list(ex.map(one, dsts))
+    for r in rows:
+        print('%-10s %-12s %s' % r)
+    print('neutral refactorings: %d, silent %d, false alarms %d, undecided %d, stale %d' % (
+        len(rows), sum(r[1] == 'SILENT' for r in rows), sum(r[1] == 'FALSE-ALARM' for r in rows), sum(r[1] == 'UNDECIDED' for r in rows), sum(r[1] == 'STALE' for r in rows)))
+    json.dump([{'id': r[0], 'status': r[1], 'by': r[2]} for r in rows], open(os.path.join(NEUTRAL, 'RESULTS.json'), 'w'), indent=1)
+
+
 if __name__ == '__main__':
-    if len(sys.argv) > 1 and sys.argv[1] == 'harvest':
+    if len(sys.argv) > 1 and sys.argv[1] == 'harvest-neutral':
+        harvest_neutral(*(sys.argv[2:4]))
+        sys.exit(0)
+    if len(sys.argv) > 1 and sys.argv[1] == 'run-neutral':
+        run_neutral(sys.argv[2] if len(sys.argv) > 2 else None)
+        sys.exit(0)
+    if False:
+        pass
+    elif len(sys.argv) > 1 and sys.argv[1] == 'harvest':
         harvest(*(sys.argv[2:4]))      # harvest [root [tag]], e.g. harvest /tmp/seed2 r2-
     elif len(sys.argv) > 1 and sys.argv[1] == 'reconfirm':
         reconfirm(sys.argv[2:])
